@@ -146,6 +146,152 @@ func c21(c *core.Ctx) {
 	c.Explain = "Static necessary conditions for deterministic settings resolution: no value escapes from a map iteration in the settings lookup in an order-dependent way; ComparePattern evaluated exhaustively over the 27 abstract cases (each part equal / different / wildcard) equals the specified matcher (sanctuary exact, '*' honoured only for realm and swamp); each of in-memory flag, idle timeout and write interval is written to the persisted model by RegisterPattern and restored from it on load."
 	c.NotCovered = []string{"that the most specific pattern wins for every pattern set (value-level)", "JSON round-trip of the settings file", "concurrent registration"}
 
+	rPure := c.Rule("C21.pure", "the resolver (GetBySwampName) depends only on the registered patterns: besides the pattern map and its lock it reads no field of the settings object that is written after construction, unless every function that changes the pattern map resets that field unconditionally; and every ComparePattern call has the concrete swamp name as receiver and the pattern as argument", 2)
+	{
+		resolver := c.Fn(pkgSettings + ".settings.GetBySwampName")
+		_, st := p.StructOf(pkgSettings, "settings")
+		fields := core.StructFields(st)
+		patternsF := fields["patterns"]
+		if patternsF == nil {
+			core.Failf("settings.patterns not found")
+		}
+		all := map[*types.Var]bool{}
+		for _, f := range fields {
+			all[f] = true
+		}
+		// fields written outside constructors
+		mutable := map[*types.Var][]string{}
+		patternWriters := map[*core.Func]bool{}
+		for _, f := range p.FuncsIn(pkgSettings) {
+			if f.Decl.Body == nil || f.Decl.Recv == nil {
+				continue // constructors are plain functions
+			}
+			for _, a := range core.Accesses(f.Info(), f.Decl.Body, all, true) {
+				if a.Write {
+					mutable[a.Field] = append(mutable[a.Field], f.Key)
+					if a.Field == patternsF {
+						patternWriters[f] = true
+					}
+				}
+			}
+		}
+		// unconditional reset of field F in function w (top-level statement): s.F = <composite/make> or s.F.Clear()
+		resets := func(w *core.Func, F *types.Var, depth int) bool {
+			var rec func(g *core.Func, d int) bool
+			rec = func(g *core.Func, d int) bool {
+				for _, stn := range g.Decl.Body.List {
+					switch v := stn.(type) {
+					case *ast.AssignStmt:
+						for _, l := range v.Lhs {
+							if core.FieldOf(g.Info(), l) == F {
+								return true
+							}
+						}
+					case *ast.ExprStmt:
+						if call, ok := v.X.(*ast.CallExpr); ok {
+							if fo := core.Callee(g.Info(), call); fo != nil {
+								if fo.Name() == "Clear" && core.FieldOf(g.Info(), core.RecvExpr(call)) == F {
+									return true
+								}
+								if id, isB := core.Unparen(call.Fun).(*ast.Ident); isB && id.Name == "clear" && len(call.Args) == 1 && core.FieldOf(g.Info(), call.Args[0]) == F {
+									return true
+								}
+								if t := p.ByObj[fo]; t != nil && d > 0 && t.Decl.Body != nil && rec(t, d-1) {
+									return true
+								}
+							}
+						}
+					}
+				}
+				return false
+			}
+			return rec(w, depth)
+		}
+		info := resolver.Info()
+		seen := map[*types.Var]bool{}
+		for _, a := range core.Accesses(info, resolver.Decl.Body, all, true) {
+			if a.Field == patternsF || seen[a.Field] || len(mutable[a.Field]) == 0 {
+				continue
+			}
+			if n := namedOf(a.Field.Type()); n != nil && n.Obj().Pkg() != nil && n.Obj().Pkg().Path() == "sync" && (n.Obj().Name() == "RWMutex" || n.Obj().Name() == "Mutex") {
+				continue
+			}
+			seen[a.Field] = true
+			okReset := len(patternWriters) > 0
+			for w := range patternWriters {
+				if !resets(w, a.Field, 1) {
+					okReset = false
+				}
+			}
+			rPure.Check(okReset, resolver.Key+":reads:"+a.Field.Name(), a.Node.Pos(), "state reset whenever the patterns change", "the resolver reads settings."+a.Field.Name()+", which is written after construction and is not reset unconditionally by every function that changes the pattern map: the answer depends on which swamps were resolved before a pattern changed, not only on the registered patterns")
+		}
+		rPure.Ok(resolver.Key+":state-read", resolver.Decl.Pos(), "fields read by the resolver scanned")
+		// ComparePattern direction
+		nameT := p.Named(pkgName, "Name")
+		_ = nameT
+		patternRole := func(g *core.Func, obj types.Object) bool {
+			if obj == nil || g.Decl.Body == nil {
+				return false
+			}
+			role := false
+			ast.Inspect(g.Decl.Body, func(x ast.Node) bool {
+				if ix, ok := x.(*ast.IndexExpr); ok && core.FieldOf(g.Info(), ix.X) == patternsF {
+					if call, isCall := core.Unparen(ix.Index).(*ast.CallExpr); isCall && core.ObjOf(g.Info(), core.RecvExpr(call)) == obj {
+						role = true
+					}
+				}
+				if call, ok := x.(*ast.CallExpr); ok {
+					if id, isB := core.Unparen(call.Fun).(*ast.Ident); isB && id.Name == "delete" && len(call.Args) == 2 && core.FieldOf(g.Info(), call.Args[0]) == patternsF {
+						if kc, isCall := core.Unparen(call.Args[1]).(*ast.CallExpr); isCall && core.ObjOf(g.Info(), core.RecvExpr(kc)) == obj {
+							role = true
+						}
+					}
+				}
+				return true
+			})
+			return role
+		}
+		cg := c.CG()
+		nCmp := 0
+		for _, g := range p.FuncsIn(pkgSettings) {
+			if g.Decl.Body == nil {
+				continue
+			}
+			gi := g.Info()
+			core.Calls(g.Decl.Body, true, func(call *ast.CallExpr) {
+				fo := core.Callee(gi, call)
+				if fo == nil || fo.Name() != "ComparePattern" || len(call.Args) != 1 {
+					return
+				}
+				nCmp++
+				c.Touch(g)
+				recv := core.ObjOf(gi, core.RecvExpr(call))
+				bad := patternRole(g, recv)
+				if !bad && recv != nil {
+					// a parameter that every caller fills with a pattern-role value
+					sig := g.Obj.Type().(*types.Signature)
+					for i := 0; i < sig.Params().Len(); i++ {
+						if sig.Params().At(i) != recv {
+							continue
+						}
+						callers := cg.In[g]
+						allPat := len(callers) > 0
+						for _, cs := range callers {
+							if cs.Caller == nil || i >= len(cs.Call.Args) || !patternRole(cs.Caller, core.ObjOf(cs.Caller.Info(), cs.Call.Args[i])) {
+								allPat = false
+							}
+						}
+						bad = allPat
+					}
+				}
+				rPure.Check(!bad, g.Key+":ComparePattern:receiver", call.Pos(), "receiver is a concrete name", "ComparePattern is called on the pattern with the swamp name as argument: wildcards are honoured only in the argument, so a wildcard pattern never matches the swamps it covers")
+			})
+		}
+		if nCmp == 0 {
+			rPure.Bad(pkgSettings+":ComparePattern", token.NoPos, "the settings package no longer matches names with ComparePattern")
+		}
+	}
+
 	rOrd := c.Rule("C21.order", "no order-dependent selection from a map in the settings package: no early exit carrying an iteration value, no unguarded best-candidate assignment", 1)
 	nRanges := 0
 	for _, f := range p.FuncsIn(pkgSettings) {
